@@ -276,7 +276,9 @@ def main():
         left = mesh.Nodes_Conditions(lambda x, y, z: x == 0)
         right = mesh.Nodes_Conditions(lambda x, y, z: x == 2.0)
         thick = 0.5 if dim == 2 else 1.0
-        for mode in ("thermal-static", "thermal-parabolic", "elastic-static", "elastic-hyperbolic"):
+        for mode in ("thermal-static", "thermal-parabolic", "elastic-static", "elastic-hyperbolic", "elastic-hyperbolic, damping given by the mass form"):
+            if mode.endswith("mass form") and dim == 3:
+                continue   # the thickness only exists in 2D
             if et == "QUAD8" and not mode.endswith("static"):
                 continue   # reduced 'rigi' rule: a single field cannot reproduce the two quadratures of the dedicated simulation
             ident = dict(elemType=et, mode=mode, thickness=thick)
@@ -302,12 +304,17 @@ def main():
                     ref.rho = rho
                     eye = np.eye(dim)
                     fK = Field(mesh.groupElem, dim, MatrixType.mass if mode.endswith("hyperbolic") else MatrixType.rigi)
+                    massForm = BiLinearForm(lambda u, v: rho * u.dot(v))
+                    shared = mode.endswith("mass form")
+                    fK = Field(mesh.groupElem, dim, MatrixType.mass if (mode.endswith("hyperbolic") or shared) else MatrixType.rigi)
                     wf = Models.WeakForms(fK, BiLinearForm(lambda u, v: (2 * mu * Sym_Grad(u) + lam * Trace(Sym_Grad(u)) * eye).ddot(Sym_Grad(v))),
-                                          computeM=BiLinearForm(lambda u, v: rho * u.dot(v)), thickness=thick)
+                                          computeC=massForm if shared else None, computeM=massForm, thickness=thick)      # the SAME form object for two terms: C = M
+                    if shared:
+                        ref.Set_Rayleigh_Damping_Coefs(1.0, 0.0)     # C = M
                     sim = Simulations.WeakForms(mesh, wf)
                     unk = ["x", "y", "z"][:dim]
                     for s_ in (ref, sim):
-                        if mode.endswith("hyperbolic"):
+                        if mode.endswith("hyperbolic") or shared:
                             s_.Solver_Set_Hyperbolic_Algorithm(0.125)
                         s_.add_dirichlet(left, [0.0] * dim, unk)
                         s_.add_dirichlet(right, [0.05], ["x"])
